@@ -118,9 +118,6 @@ structure CC where
   deriving Repr
 
 /-! ### sb_buf access with bounds checks -/
-def sbGet (d : Dec) (i : Nat) : Except String Byte :=
-  if h : i < d.sbBuf.length then .ok (d.sbBuf[i]) else .error s!"sb_buf read index {i}"
-
 def sbSet (d : Dec) (i : Nat) (v : Byte) : Except String Dec :=
   if i < d.sbBuf.length then .ok { d with sbBuf := d.sbBuf.set i v } else .error s!"sb_buf write index {i}"
 
@@ -155,110 +152,136 @@ def slcLoop (buf : List Byte) (sbPos : Nat) : Nat → Nat → List Byte
 
 def telnetSbLmMode (d : Dec) : List Byte := [bIAC, bSB, u8 optLINEMODE, u8 lmMODE, d.lmMode, bIAC, bSE, 0]
 
-/-- `case TS_SB_IAC:` with `from[i] == SE`: terminate the buffer and hand it to the user object -/
-def sbEnd (d : Dec) : Except String CC := do
-  let d ← sbSet d d.sbPos 0                                 -- ip->sb_buf[ip->sb_pos] = 0
-  let b0 ← sbGet d 0
-  let done : Dec := { d with ts := tsDATA, cr := false }
-  if b0 = u8 optTTYPE then
-    let b1 ← sbGet d 1
-    if b1 ≠ u8 telqualIS then return { d := done }
-    let s ← sbCstr d 2
-    return { d := done, cbs := [.cbTtype s] }
-  else if b0 = u8 optNAWS then
-    let b1 ← sbGet d 1
-    let b2 ← sbGet d 2
-    let b3 ← sbGet d 3
-    let b4 ← sbGet d 4
-    return { d := done, cbs := [.cbNaws (b1.toNat * 256 + b2.toNat) (b3.toNat * 256 + b4.toNat)] }
-  else if b0 = u8 optLINEMODE then
-    let b1 ← sbGet d 1
-    if b1 = u8 lmMODE then
-      let b2 ← sbGet d 2
-      if b2.toNat &&& modeACK ≠ 0 then return { d := done }
-      else return { d := done, tx := addMsg (telnetSbLmMode d) }
-    else if b1 = u8 lmSLC then
-      return { d := done,
-               tx := addMsg [bIAC, bSB, u8 optLINEMODE, u8 lmSLC, 0] ++ slcLoop d.sbBuf d.sbPos d.sbPos 2 ++
-                     addMsg [bIAC, bSE, 0] }
-    else return { d := done }
-  else
-    let s ← sbCstr d 0
-    return { d := done, cbs := [.cbSubopt s] }
-
-/-- one iteration of the `for` loop of copy_chars -/
-def ccByte (d : Dec) (b : Byte) : Except String CC :=
-  if d.ts = tsDATA then
-    if b = bIAC then .ok { d := { d with ts := tsIAC, cr := false } }
-    else if b = bCR then
-      .ok { d := { d with cr := true }, out := if d.fl.single then [b] else [] }
-    else
-      let d' := { d with cr := false }
-      if !d.cr || d.fl.single then .ok { d := d', out := [b] }
-      else if b = bLF ∨ b = bNUL then
-        .ok { d := d', out := [bSP, bBS, bNUL], tx := addMsg [bCR, bLF, 0] }
-      else .ok { d := d' }                                  -- the byte after a lone CR is dropped
-  else if d.ts = tsSBIAC then
-    if b = bIAC then
-      let d1 : Dec := { d with ts := tsSB, cr := false }
-      if d.sbPos < sbSize then
-        match sbSet d1 d.sbPos bIAC with
-        | .ok d2 => .ok { d := { d2 with sbPos := d.sbPos + 1 } }
+/-- `case TS_SB_IAC:` with `from[i] == SE`: terminate the buffer and hand it to the user object.
+    The handlers read `sb_buf[0..4]` at fixed offsets whatever `sb_pos` is (one explicit check for all five). -/
+def sbEnd (d0 : Dec) : Except String CC :=
+  match sbSet d0 d0.sbPos 0 with                              -- ip->sb_buf[ip->sb_pos] = 0
+  | .error e => .error e
+  | .ok d =>
+    if d.sbBuf.length < 5 then .error "sb_buf[0..4] read outside the array" else
+    let g : Nat → Byte := fun i => d.sbBuf.getD i 0
+    let done : Dec := { d with ts := tsDATA, cr := false }
+    if g 0 = u8 optTTYPE then
+      if g 1 ≠ u8 telqualIS then .ok { d := done }
+      else
+        match sbCstr d 2 with
         | .error e => .error e
-      else .ok { d := d1 }
-    else if b = bSE then sbEnd d
-    else .ok { d := d }
-  else if d.ts = tsIAC then
-    let toData : Dec := { d with ts := tsDATA, cr := false }
-    if b = bIAC then .ok { d := toData, out := [bIAC] }
-    else if b = bDO then .ok { d := { d with ts := tsDO, cr := false } }
-    else if b = bDONT then .ok { d := { d with ts := tsDONT, cr := false } }
-    else if b = bWILL then .ok { d := { d with ts := tsWILL, cr := false } }
-    else if b = bWONT then .ok { d := { d with ts := tsWONT, cr := false } }
-    else if b = bBREAK then .ok { d := toData, tx := addMsg [28, bIAC, bWILL, u8 optTM, 0] }
-    else if b = bIP then .ok { d := toData, tx := addMsg [127, bIAC, bWILL, u8 optTM, 0] }
-    else if b = bAYT then .ok { d := toData, tx := addMsg (aytBanner.map u8 ++ [0]) }
-    else if b = bAO then .ok { d := toData, tx := addMsg [bIAC, bDM, 0] }
-    else if b = bSB then
-      .ok { d := { d with ts := tsSB, cr := false, sbPos := 0, sbBuf := List.replicate d.sbBuf.length 0 } }
-    else .ok { d := toData }
-  else if d.ts = tsDO then
-    let toData : Dec := { d with ts := tsDATA, cr := false }
-    if b = u8 optSGA then .ok { d := toData, tx := addMsg [bIAC, bWILL, u8 optSGA, 0] }
-    else if b = u8 optTM then .ok { d := toData, tx := addMsg [bIAC, bWILL, u8 optTM, 0] }
-    else .ok { d := toData }
-  else if d.ts = tsWILL then
-    let fl := { d.fl with usingTelnet := true }
-    if b = u8 optTTYPE then
-      .ok { d := { d with ts := tsDATA, cr := false, fl := fl },
-            tx := addMsg [bIAC, bSB, u8 optTTYPE, u8 telqualSEND, bIAC, bSE, 0] }
-    else if b = u8 optLINEMODE then
-      let fl := { fl with usingLinemode := true }
-      if !d.fl.single then
-        let d' : Dec := { d with ts := tsDATA, cr := false, fl := fl, lmMode := u8 (modeEDIT ||| modeTRAPSIG) }
-        .ok { d := d', tx := addMsg (telnetSbLmMode d') }
-      else .ok { d := { d with ts := tsDATA, cr := false, fl := fl } }
-    else if b = u8 optSGA then
-      .ok { d := { d with ts := tsDATA, cr := false, fl := fl }, tx := addMsg [bIAC, bDO, u8 optSGA, 0] }
-    else .ok { d := { d with ts := tsDATA, cr := false, fl := fl } }
-  else if d.ts = tsDONT then
-    let fl := { d.fl with usingTelnet := true }
-    if b = u8 optSGA then
-      .ok { d := { d with ts := tsDATA, cr := false, fl := fl }, tx := addMsg [bIAC, bWONT, u8 optSGA, 0] }
-    else .ok { d := { d with ts := tsDATA, cr := false, fl := fl } }
-  else if d.ts = tsWONT then
-    let fl := { d.fl with usingTelnet := true }
-    if b = u8 optLINEMODE then
-      .ok { d := { d with ts := tsDATA, cr := false, fl := { fl with usingLinemode := false } } }
-    else .ok { d := { d with ts := tsDATA, cr := false, fl := fl } }
-  else if d.ts = tsSB then
-    if b = bIAC then .ok { d := { d with ts := tsSBIAC, cr := false } }
-    else if d.sbPos < sbSize then
-      match sbSet d d.sbPos b with
+        | .ok s => .ok { d := done, cbs := [.cbTtype s] }
+    else if g 0 = u8 optNAWS then
+      .ok { d := done, cbs := [.cbNaws ((g 1).toNat * 256 + (g 2).toNat) ((g 3).toNat * 256 + (g 4).toNat)] }
+    else if g 0 = u8 optLINEMODE then
+      if g 1 = u8 lmMODE then
+        if (g 2).toNat &&& modeACK ≠ 0 then .ok { d := done }
+        else .ok { d := done, tx := addMsg (telnetSbLmMode d) }
+      else if g 1 = u8 lmSLC then
+        .ok { d := done,
+              tx := addMsg [bIAC, bSB, u8 optLINEMODE, u8 lmSLC, 0] ++ slcLoop d.sbBuf d.sbPos d.sbPos 2 ++
+                    addMsg [bIAC, bSE, 0] }
+      else .ok { d := done }
+    else
+      match sbCstr d 0 with
+      | .error e => .error e
+      | .ok s => .ok { d := done, cbs := [.cbSubopt s] }
+
+/-! one iteration of the `for` loop of copy_chars: one function per `case` of the switch -/
+
+/-- `case TS_DATA:` -/
+def ccData (d : Dec) (b : Byte) : Except String CC :=
+  if b = bIAC then .ok { d := { d with ts := tsIAC, cr := false } }
+  else if b = bCR then
+    .ok { d := { d with cr := true }, out := if d.fl.single then [b] else [] }
+  else
+    let d' := { d with cr := false }
+    if !d.cr || d.fl.single then .ok { d := d', out := [b] }
+    else if b = bLF ∨ b = bNUL then
+      .ok { d := d', out := [bSP, bBS, bNUL], tx := addMsg [bCR, bLF, 0] }
+    else .ok { d := d' }                                  -- the byte after a lone CR is dropped
+
+/-- `case TS_SB_IAC:` -/
+def ccSbIac (d : Dec) (b : Byte) : Except String CC :=
+  if b = bIAC then
+    let d1 : Dec := { d with ts := tsSB, cr := false }
+    if d.sbPos < sbSize then
+      match sbSet d1 d.sbPos bIAC with
       | .ok d2 => .ok { d := { d2 with sbPos := d.sbPos + 1 } }
       | .error e => .error e
-    else .ok { d := d }
-  else .ok { d := d }                                       -- no `case` of the switch matches
+    else .ok { d := d1 }
+  else if b = bSE then sbEnd d
+  else .ok { d := d }
+
+/-- `case TS_IAC:` -/
+def ccIac (d : Dec) (b : Byte) : Except String CC :=
+  let toData : Dec := { d with ts := tsDATA, cr := false }
+  if b = bIAC then .ok { d := toData, out := [bIAC] }
+  else if b = bDO then .ok { d := { d with ts := tsDO, cr := false } }
+  else if b = bDONT then .ok { d := { d with ts := tsDONT, cr := false } }
+  else if b = bWILL then .ok { d := { d with ts := tsWILL, cr := false } }
+  else if b = bWONT then .ok { d := { d with ts := tsWONT, cr := false } }
+  else if b = bBREAK then .ok { d := toData, tx := addMsg [28, bIAC, bWILL, u8 optTM, 0] }
+  else if b = bIP then .ok { d := toData, tx := addMsg [127, bIAC, bWILL, u8 optTM, 0] }
+  else if b = bAYT then .ok { d := toData, tx := addMsg (aytBanner.map u8 ++ [0]) }
+  else if b = bAO then .ok { d := toData, tx := addMsg [bIAC, bDM, 0] }
+  else if b = bSB then
+    .ok { d := { d with ts := tsSB, cr := false, sbPos := 0, sbBuf := List.replicate d.sbBuf.length 0 } }
+  else .ok { d := toData }
+
+/-- `case TS_DO:` -/
+def ccDo (d : Dec) (b : Byte) : Except String CC :=
+  let toData : Dec := { d with ts := tsDATA, cr := false }
+  if b = u8 optSGA then .ok { d := toData, tx := addMsg [bIAC, bWILL, u8 optSGA, 0] }
+  else if b = u8 optTM then .ok { d := toData, tx := addMsg [bIAC, bWILL, u8 optTM, 0] }
+  else .ok { d := toData }
+
+/-- `case TS_WILL:` -/
+def ccWill (d : Dec) (b : Byte) : Except String CC :=
+  let fl := { d.fl with usingTelnet := true }
+  if b = u8 optTTYPE then
+    .ok { d := { d with ts := tsDATA, cr := false, fl := fl },
+          tx := addMsg [bIAC, bSB, u8 optTTYPE, u8 telqualSEND, bIAC, bSE, 0] }
+  else if b = u8 optLINEMODE then
+    let fl := { fl with usingLinemode := true }
+    if !d.fl.single then
+      let d' : Dec := { d with ts := tsDATA, cr := false, fl := fl, lmMode := u8 (modeEDIT ||| modeTRAPSIG) }
+      .ok { d := d', tx := addMsg (telnetSbLmMode d') }
+    else .ok { d := { d with ts := tsDATA, cr := false, fl := fl } }
+  else if b = u8 optSGA then
+    .ok { d := { d with ts := tsDATA, cr := false, fl := fl }, tx := addMsg [bIAC, bDO, u8 optSGA, 0] }
+  else .ok { d := { d with ts := tsDATA, cr := false, fl := fl } }
+
+/-- `case TS_DONT:` -/
+def ccDont (d : Dec) (b : Byte) : Except String CC :=
+  let fl := { d.fl with usingTelnet := true }
+  if b = u8 optSGA then
+    .ok { d := { d with ts := tsDATA, cr := false, fl := fl }, tx := addMsg [bIAC, bWONT, u8 optSGA, 0] }
+  else .ok { d := { d with ts := tsDATA, cr := false, fl := fl } }
+
+/-- `case TS_WONT:` -/
+def ccWont (d : Dec) (b : Byte) : Except String CC :=
+  let fl := { d.fl with usingTelnet := true }
+  if b = u8 optLINEMODE then
+    .ok { d := { d with ts := tsDATA, cr := false, fl := { fl with usingLinemode := false } } }
+  else .ok { d := { d with ts := tsDATA, cr := false, fl := fl } }
+
+/-- `case TS_SB:` -/
+def ccSb (d : Dec) (b : Byte) : Except String CC :=
+  if b = bIAC then .ok { d := { d with ts := tsSBIAC, cr := false } }
+  else if d.sbPos < sbSize then
+    match sbSet d d.sbPos b with
+    | .ok d2 => .ok { d := { d2 with sbPos := d.sbPos + 1 } }
+    | .error e => .error e
+  else .ok { d := d }
+
+/-- `switch (ip->state & TS_STATE_MASK)` -/
+def ccByte (d : Dec) (b : Byte) : Except String CC :=
+  if d.ts = tsDATA then ccData d b
+  else if d.ts = tsSBIAC then ccSbIac d b
+  else if d.ts = tsIAC then ccIac d b
+  else if d.ts = tsDO then ccDo d b
+  else if d.ts = tsWILL then ccWill d b
+  else if d.ts = tsDONT then ccDont d b
+  else if d.ts = tsWONT then ccWont d b
+  else if d.ts = tsSB then ccSb d b
+  else .ok { d := d }                                       -- no `case` matches
 
 /-- copy_chars over a chunk: the decoder state is carried in `ip`, output is appended -/
 def copyChars (d : Dec) : List Byte → Except String CC
